@@ -165,5 +165,6 @@ def strategy(tier):
                 case["config"]["max_lattice_width"] = draw(st.sampled_from([1, 2, 3]))
         else:
             case["ops"] = [["match", len(case["trace"])]]
+        case = draw(common.maybe_decoy(case, share=2))
         return case
     return _s()
